@@ -15,7 +15,7 @@ SPEC = {
     "inject": [("apollo-compiler", "src/name.rs", "compiler/c10_name.rs", "verif_c10_name"),
                ("apollo-compiler", "src/ast/impls.rs", "compiler/c10_num.rs", "verif_c10_num")],
     "unsafe_checks": False,
-    "timeout": {"quick": 900, "thorough": 3000},
+    "timeout": {"quick": 900, "thorough": 1500},
     "jobs": 12,
     "harnesses": [
         H("c10_name_syntax_n4", mod=NAME, functions=F_N, tiers=("quick",), heavy=True,
@@ -36,14 +36,14 @@ SPEC = {
         H("c10_int_syntax_n7", mod=NUM, functions=F_I, tiers=("thorough",), heavy=True, domain="every string <= 7 bytes over " + ALPHA, bound="len <= 7, unwind 10"),
         H("c10_float_syntax_n4", mod=NUM, functions=F_F, tiers=("quick",), heavy=True, domain="every string <= 4 bytes over " + ALPHA, bound="len <= 4, unwind 7"),
         H("c10_float_syntax_n5", mod=NUM, functions=F_F, tiers=("thorough",), heavy=True, domain="every string <= 5 bytes over " + ALPHA, bound="len <= 5, unwind 8"),
-        H("c10_float_syntax_n6", mod=NUM, functions=F_F, tiers=("thorough",), heavy=True, optional=True, timeout=3000, domain="every string <= 6 bytes over " + ALPHA, bound="len <= 6, unwind 9"),
+        H("c10_float_syntax_n6", mod=NUM, functions=F_F, tiers=("thorough",), heavy=True, optional=True, timeout=1500, domain="every string <= 6 bytes over " + ALPHA, bound="len <= 6, unwind 9"),
         H("c10_float_empty_exponent", mod=NUM, functions=F_F, expect="finding", kf="C10_EMPTY_EXPONENT", heavy=True,
           signature="empty exponent accepted", domain="strings <= 4 bytes ending in [eE][+-]?", bound="len <= 4"),
         H("c10_int_deserialize_n3", mod=NUM, functions=F_I, heavy=True, domain="every string <= 3 bytes over the alphabet through serde StrDeserializer", bound="len <= 3"),
         H("c10_float_deserialize_n3", mod=NUM, functions=F_F, heavy=True, domain="every string <= 3 bytes over the alphabet through serde StrDeserializer", bound="len <= 3"),
         H("c10_i32_roundtrip_edges", mod=NUM, functions=F_32, heavy=True,
           domain="every i32 in [MIN, MIN+4096] u [-4096, 4096] u [MAX-4096, MAX]", bound="unwind 13 (<= 11 characters)"),
-        H("c10_i32_roundtrip_all", mod=NUM, functions=F_32, tiers=("thorough",), heavy=True, optional=True, timeout=3000,
+        H("c10_i32_roundtrip_all", mod=NUM, functions=F_32, tiers=("thorough",), heavy=True, optional=True, timeout=1500,
           domain="every i32", bound="unwind 13 (<= 11 characters)"),
         H("c10_num_twin_must_fail", mod=NUM, functions=F_I, expect="twin", heavy=True, domain="vacuity twin", bound="-"),
     ],
